@@ -280,7 +280,7 @@ def adaptive_item(item, res, on_v):
 
 
 # ----------------------------------------------------------------- adaptive sampler driven by a condition ---
-COND_KINDS = ["pinn", "pinn2out", "deepritz", "periodic", "integro", "hpm_sampler"]
+COND_KINDS = ["pinn", "pinn2out", "deepritz", "periodic", "integro", "hpm_sampler", "pideeponet"]
 
 
 def adaptive_in_condition(item, res, on_v):
@@ -338,6 +338,29 @@ def adaptive_in_condition(item, res, on_v):
                 ui = model(Points(xi, X)).as_tensor            # the same integral points for every row
                 return u - ui.mean(dim=0, keepdim=True) * x[:, :1]
             return Cn.IntegroPINNCondition(model, sampler, res_fn, isamp), ref
+        if kind == "pideeponet":
+            from torchphysics.problem.domains.functionsets import CustomFunctionSet
+            from torchphysics.problem.spaces import FunctionSpace
+            from torchphysics.models.deeponet.deeponet import DeepONet
+            from torchphysics.models.deeponet.trunknets import FCTrunkNet
+            from torchphysics.models.deeponet.branchnets import FCBranchNet
+            fs = FunctionSpace(tp.domains.Interval(T, 0, 1), Space({"e": 1}))
+            torch.manual_seed(3)
+            trunk = FCTrunkNet(X, hidden=(4,))
+            branch = FCBranchNet(fs, discretization_sampler=S.GridSampler(fs.input_domain, 3).make_static(), hidden=(4,))
+            net = DeepONet(trunk, branch, output_space=U, output_neurons=3)
+            fset = CustomFunctionSet(fs, S.GridSampler(tp.domains.Interval(Space({"k": 1}), 0, 1), 2).make_static(), lambda k, t: torch.sin(3 * k * t) + k)
+
+            def res_fn(u, x):
+                seen.append(x.detach().clone()[0])
+                return u - x[..., :1] * x[..., 1:] * 3.0
+
+            def ref(x):
+                net._forward_branch(fset, iteration_num=0)
+                xx = x.unsqueeze(0).repeat(len(fset), 1, 1)
+                r = net(Points(xx, X)).as_tensor - xx[..., :1] * xx[..., 1:] * 3.0          # (functions, points, 1)
+                return r.pow(2).sum(-1).sum(0).reshape(-1, 1).sqrt()        # per_point squares again: hand it the root
+            return Cn.PIDeepONetCondition(net, fset, sampler, res_fn), ref
         if kind == "periodic":
             def res_fn(u_left, u_right, x):
                 seen.append(x.detach().clone())
@@ -360,8 +383,8 @@ def adaptive_in_condition(item, res, on_v):
         on_v("C15|adaptive-in-condition|error|%s|%s" % (type(e).__name__, kind), "%s: constructing the condition raised %s: %s" % (name, type(e).__name__, str(e)[:120]))
         return
     losses_seen = []
-    orig_sp = cond.sampler.sample_points if hasattr(cond, "sampler") else cond.non_periodic_sampler.sample_points
-    smp_obj = cond.sampler if hasattr(cond, "sampler") else cond.non_periodic_sampler
+    smp_obj = cond.sampler if hasattr(cond, "sampler") else (cond.input_sampler if hasattr(cond, "input_sampler") else cond.non_periodic_sampler)
+    orig_sp = smp_obj.sample_points
 
     def spy(unreduced_loss=None, *a, **k):
         losses_seen.append(None if unreduced_loss is None else unreduced_loss.detach().clone())
